@@ -176,3 +176,148 @@ def insert_auto_interleaved(k: int, named_first: bool) -> bool:
         ok = ok and doc.get_style(FAMILY, ra)._Element__element is a._Element__element
     ok = ok and doc.get_style(FAMILY, rc)._Element__element is c._Element__element
     return done(ok)
+
+
+# ---- merge_styles_from ---------------------------------------------------------------------------
+def _style_state(doc):
+    """every style container of both parts: which nodes (identity), with which attributes"""
+    out = []
+    for k, cont in containers(doc).items():
+        out.append((k, [(ch, ch.tag, sorted(ch.attrib.items()), len(ch._children)) for ch in cont._children]))
+    return out
+
+
+def _same_state(a, b):
+    if len(a) != len(b):
+        return False
+    for (ka, la), (kb, lb) in zip(a, b):
+        if ka != kb or len(la) != len(lb):
+            return False
+        for (na, ta, aa, ca), (nb, tb, ab, cb) in zip(la, lb):
+            if na is not nb or ta != tb or ca != cb or len(aa) != len(ab):
+                return False
+            for (k1, v1), (k2, v2) in zip(aa, ab):
+                if k1 != k2 or not (v1 is v2 or v1 == v2):
+                    return False
+    return True
+
+
+def _marked(family, name, mark):
+    st = _mk(family, name)
+    st._Element__element.set(S_NS + "class", mark)  # tells whose definition it is
+    return st
+
+
+MNAMES = ["a", "b", "a b"]
+
+
+K1 = int(os.environ.get("VERIF_K1", "0"))  # name of dest's own style (concrete per process)
+
+
+def merge_named(k2: int, automatic: bool, other_default: bool) -> bool:
+    """
+    pre: 0 <= k2 <= 2
+    post: _
+    """
+    n1, n2 = MNAMES[K1], MNAMES[k2]  # (concrete names picked by the solver: equal or different is what matters here)
+    # dest holds style (FAMILY, n1) [marked "mine"], a text style also called n1 and a default style;
+    # the other document holds (FAMILY, n2) [marked "theirs"], possibly a default style of FAMILY.
+    # After dest.merge_styles_from(other): the other document is as it was; dest holds the union, with
+    # the other document's definition where both define (FAMILY, name); nothing is duplicated; styles
+    # of another family or name that only dest had are still there
+    dest, other = Doc(), Doc()
+    mine = _marked(FAMILY, n1, "mine")
+    dest.insert_style(mine, automatic=automatic)
+    dest.insert_style(_marked("text" if FAMILY != "text" else "paragraph", n1, "mine-other-family"))
+    dest.insert_style(Style(FAMILY), default=True)
+    theirs = _marked(FAMILY, n2, "theirs")
+    other.insert_style(theirs, automatic=automatic)
+    if other_default:
+        d2 = Style(FAMILY)
+        d2._Element__element.set(S_NS + "class", "theirs")
+        other.insert_style(d2, default=True)
+    before_other = _style_state(other)
+    dest.merge_styles_from(other)
+    ok = _same_state(_style_state(other), before_other)  # the other document is left unchanged
+    ok = ok and unique_ok(dest)
+    got = dest.get_style(FAMILY, n2)
+    ok = ok and got is not None and got._Element__element.attrib.get(S_NS + "class") == "theirs"
+    ok = ok and where(dest, got._Element__element) == expected_container(FAMILY, automatic, False)
+    if n1 != n2:
+        g1 = dest.get_style(FAMILY, n1)
+        ok = ok and g1 is not None and g1._Element__element.attrib.get(S_NS + "class") == "mine"
+    of = dest.get_style("text" if FAMILY != "text" else "paragraph", n1)
+    ok = ok and of is not None and of._Element__element.attrib.get(S_NS + "class") == "mine-other-family"
+    dflt = dest.get_style(FAMILY)
+    ok = ok and dflt is not None and (dflt._Element__element.attrib.get(S_NS + "class") == "theirs") == other_default
+    return done(ok)
+
+
+def merge_kind(same: bool, extra_default: bool) -> bool:
+    """
+    post: _
+    """
+    # the kinds with a container of their own (FAMILY = master-page, page-layout or font-face): the other
+    # document's definition lands in the container its kind requires, replaces dest's style of the
+    # same name (when `same`), leaves dest's other styles and the other document alone
+    dest, other = Doc(), Doc()
+    n1 = "K" if same else "K other"
+    dflt = FAMILY == "font-face"   # (a font face goes to styles.xml with default=True, to content.xml otherwise)
+    mine = _marked(FAMILY, n1, "mine")
+    dest.insert_style(mine, default=dflt)
+    keep = _marked("paragraph", "K", "mine-paragraph")
+    dest.insert_style(keep)
+    if extra_default:
+        dest.insert_style(Style("paragraph"), default=True)
+    theirs = _marked(FAMILY, "K", "theirs")
+    other.insert_style(theirs, default=dflt)
+    before_other = _style_state(other)
+    dest.merge_styles_from(other)
+    ok = _same_state(_style_state(other), before_other) and unique_ok(dest)
+    got = dest.get_style(FAMILY, "K")
+    ok = ok and got is not None and got._Element__element.attrib.get(S_NS + "class") == "theirs"
+    ok = ok and where(dest, got._Element__element) == expected_container(FAMILY, False, dflt)
+    if not same:
+        g1 = dest.get_style(FAMILY, n1)
+        ok = ok and g1 is not None and g1._Element__element.attrib.get(S_NS + "class") == "mine"
+    kp = dest.get_style("paragraph", "K")
+    ok = ok and kp is not None and kp._Element__element.attrib.get(S_NS + "class") == "mine-paragraph"
+    if extra_default:
+        ok = ok and dest.get_style("paragraph") is not None
+    return done(ok)
+
+
+def merge_marker(twice: bool, n_defaults: int, own_marker: bool) -> bool:
+    """
+    pre: 0 <= n_defaults <= 3
+    post: _
+    """
+    # a pseudo style named by draw:name (draw:marker) in the other document: merged once (not duplicated by
+    # a second merge), it replaces dest's marker of the same name and leaves every default style of dest alone
+    fams = ["graphic", "paragraph", "table"][:n_defaults]
+    dest, other = Doc(), Doc()
+    for f in fams:
+        d = Style(f)
+        d._Element__element.set(S_NS + "class", "mine")
+        dest.insert_style(d, default=True)
+    DRAW = "{urn:oasis:names:tc:opendocument:xmlns:drawing:1.0}"
+
+    def marker(mark):
+        m = Element.make_etree_element("draw:marker")
+        m.set(DRAW + "name", "Arrow")
+        m.set(S_NS + "class", mark)
+        return m
+
+    if own_marker:
+        containers(dest)["styles:styles"].append(marker("mine"))
+    containers(other)["styles:styles"].append(marker("theirs"))
+    before_other = _style_state(other)
+    dest.merge_styles_from(other)
+    if twice:
+        dest.merge_styles_from(other)
+    ok = _same_state(_style_state(other), before_other)
+    cont = containers(dest)["styles:styles"]
+    markers = [c for c in cont._children if c.tag == DRAW + "marker"]
+    ok = ok and len(markers) == 1 and markers[0].attrib.get(S_NS + "class") == "theirs"
+    defaults = [c.attrib.get(S_NS + "family") for c in cont._children if c.tag == S_NS + "default-style"]
+    return done(ok and sorted(defaults) == sorted(fams))
